@@ -2,11 +2,11 @@
 from .. import gen
 from . import common
 from .C03 import strict_parse
-from .C12 import derive, retype
+from .C12 import derive, retype, unwrap
 
 SPEC_THEOREM = 'Props/C11: is_jsonb separates text from encodings; every dispatching function gives the same result on spell d and enc (denote d)'
 TRUSTED = ['Coq 8.16.1 kernel', 'translator (is_jsonb byte set)', 'extraction + OCaml driver', 'Rust harness', 'model Dispatch.v (the dispatch of every public function as written)']
-ASSUMPTIONS = ['JSON texts are valid, finite and do not begin with a space; top-level count < 2^24']
+ASSUMPTIONS = ['JSON texts are valid, finite and do not begin with a space (a third of them begin with other white space: tab, LF, CR, FF, escaped forms); top-level count < 2^24']
 RULE = 'every public function taking documents, all 2^k text/binary choices of its k document arguments, arguments from the C05/C06/C08/C12/C13 streams (second documents unrelated to, derived from, or a re-typed copy of the first); the outcomes of the 2^k calls must be equal; non-trivial = outcome is not none/false/error'
 
 
@@ -46,7 +46,17 @@ def generate(ctx):
         t = gen.json_text(v, r)
         if t[:1] == b' ':
             continue
-        t = gen.hexarg(t)
+        # the property covers every text that does not begin with a SPACE: other leading white space (tab, LF, CR, form
+        # feed and the parser's escaped forms) is skipped by the parser and must be skipped by every function
+        t_rfc = t
+        if r.random() < 0.35:
+            lead = r.choice([b'\t', b'\n', b'\r\n', b'\x0c', b'\\n', b'\\t\\x0C', b'\n  '])
+            tail = r.choice([b'', b'\n', b' \t'])
+            # to_string returns a text argument as it is, and the judge of the renderings is a strict RFC parser: those two
+            # ops get RFC white space only
+            t_rfc = (lead if lead in (b'\t', b'\n', b'\r\n', b'\n  ') else b'\n') + t + tail
+            t = lead + t + tail
+        t, t_rfc = gen.hexarg(t), gen.hexarg(t_rfc)
         for op in unary_ops(ctx, v):
             ids = [ctx.add(op.format(x)).id for x in (b, t)]
             ctx.groups.append((op, ids))
@@ -57,8 +67,12 @@ def generate(ctx):
             w = r.choice(ds)
         elif c < 0.55:
             w = gen.text_form(derive(ctx, v))
-        elif c < 0.85:
+        elif c < 0.7:
             w = gen.text_form(retype(ctx, derive(ctx, v)))
+        elif c < 0.85:
+            # an array below the top level replaced by one of its scalar elements: the bare-scalar rule of contains is for
+            # the top level only
+            w = gen.text_form(unwrap(ctx, v) if r.random() < 0.5 else derive(ctx, unwrap(ctx, v)))
         elif v[0] == 'a' and v[1]:
             w = gen.text_form(retype(ctx, r.choice(v[1])))
         else:
@@ -70,7 +84,7 @@ def generate(ctx):
             ids = [ctx.add(op.format(x, y)).id for x in (b, t) for y in (wb, wt)]
             ctx.groups.append((op, ids))
         for op in ('to_string', 'to_pretty_string'):
-            ids = [ctx.add('%s_raw %s' % (op, x), diff=False).id for x in (b, t)]
+            ids = [ctx.add('%s_raw %s' % (op, x), diff=False).id for x in (b, t_rfc)]
             ctx.groups.append((op + '_raw', ids))
 
 
